@@ -325,6 +325,11 @@ def _ob_worker(task):
     idx, level, timeout_ms, seed, use_cvc5, cvc5_timeout_s = task
     eng, obs = _G["eng"], _G["obs"]
     ob = obs[idx]
+    dl = _G.get("deadline")
+    if dl is not None and time.time() > dl and ob.kind != "cover":
+        # the property's solving budget is used up (only reached when many obligations are hard,
+        # i.e. on changed code): undecided, never a verdict
+        return idx, dict(status="unknown", backend="z3", time=0.0, model=None, reason="time budget of this check exhausted", log=[("budget", "unknown", 0.0)], prep=0.0)
     full_h = (ob.meta or {}).get("full_hyps")
     # a cited subset either closes quickly or not at all: short budget, no second solver
     _, r = _solve_one(eng, ob, idx, level, (min(timeout_ms, 6000) if full_h is not None else timeout_ms), seed, (None if full_h is not None else use_cvc5), cvc5_timeout_s)
@@ -412,15 +417,92 @@ def _solve_one(eng, ob, idx, level, timeout_ms, seed, use_cvc5, cvc5_timeout_s):
     return idx, r
 
 
-def discharge_obligations(eng, obs, level=0, timeout_ms=20000, seed=0, cvc5="unknown", cvc5_timeout_s=30, jobs=None):
-    """prepare and solve obligations in forked workers; returns list of result dicts"""
+def _pool_worker(wid, task_q, res_q):
+    while True:
+        task = task_q.get()
+        if task is None:
+            return
+        res_q.put(("start", wid, task[0], None))
+        try:
+            idx, r = _ob_worker(task)
+        except BaseException as e:  # noqa: BLE001
+            idx, r = task[0], dict(status="error", backend="worker", time=0.0, model=None, reason=repr(e), log=[], prep=0.0)
+        res_q.put(("done", wid, idx, r))
+
+
+def discharge_obligations(eng, obs, level=0, timeout_ms=20000, seed=0, cvc5="unknown", cvc5_timeout_s=30, jobs=None, deadline=None):
+    """prepare and solve obligations in forked workers; returns list of result dicts.
+
+    A watchdog kills a worker whose current obligation exceeds a hard wall-clock limit (z3's nonlinear
+    arithmetic can ignore its own timeout inside big-number routines): that obligation is *undecided*."""
     _G["eng"] = eng
     _G["obs"] = obs
+    _G["deadline"] = deadline
     n = jobs or int(os.environ.get("PYVC_JOBS", "15"))
+    n = min(n, max(1, len(obs)))
+    hard = float(os.environ.get("PYVC_HARD_LIMIT_S", str(max(240.0, 12.0 * timeout_ms / 1000.0))))
     ctx = mp.get_context("fork")
+    task_q, res_q = ctx.Queue(), ctx.Queue()
     out = [None] * len(obs)
-    tasks = [(i, level, timeout_ms, seed, cvc5, cvc5_timeout_s) for i in range(len(obs))]
-    with ctx.Pool(min(n, max(1, len(obs)))) as p:
-        for idx, r in p.imap_unordered(_ob_worker, tasks, chunksize=1):
-            out[idx] = r
+    if not obs:
+        return out
+    for i in range(len(obs)):
+        task_q.put((i, level, timeout_ms, seed, cvc5, cvc5_timeout_s))
+    procs, running = {}, {}
+    next_wid = [0]
+
+    def spawn():
+        wid = next_wid[0]
+        next_wid[0] += 1
+        p = ctx.Process(target=_pool_worker, args=(wid, task_q, res_q), daemon=True)
+        p.start()
+        procs[wid] = p
+        return wid
+
+    for _ in range(n):
+        spawn()
+    done = 0
+    import queue as _q
+
+    while done < len(obs):
+        try:
+            kind, wid, idx, r = res_q.get(timeout=1.0)
+            if kind == "start":
+                running[wid] = (idx, time.time())
+            else:
+                running.pop(wid, None)
+                if out[idx] is None:
+                    out[idx] = r
+                    done += 1
+            continue_polling = not res_q.empty()
+        except _q.Empty:
+            continue_polling = False
+        if continue_polling:
+            continue
+        now = time.time()
+        for wid, (idx, t0) in list(running.items()):
+            if now - t0 > hard:
+                p = procs.pop(wid)
+                p.kill()
+                p.join(1)
+                running.pop(wid, None)
+                if out[idx] is None:
+                    out[idx] = dict(status="unknown", backend="z3", time=now - t0, model=None, reason=f"hard wall-clock limit ({hard:.0f} s): solver did not honour its timeout", log=[("watchdog-kill", "unknown", round(now - t0, 1))], prep=0.0)
+                    done += 1
+                spawn()
+        # a worker that died without reporting (out of memory, crash): its obligation is undecided
+        for wid, p in list(procs.items()):
+            if not p.is_alive() and wid in running:
+                idx, t0 = running.pop(wid)
+                procs.pop(wid)
+                if out[idx] is None:
+                    out[idx] = dict(status="unknown", backend="z3", time=now - t0, model=None, reason="worker process died", log=[("worker-died", "unknown", 0.0)], prep=0.0)
+                    done += 1
+                spawn()
+    for _ in procs:
+        task_q.put(None)
+    for p in procs.values():
+        p.join(2)
+        if p.is_alive():
+            p.kill()
     return out
